@@ -84,9 +84,9 @@ def spx_site(loc, repo=vlib.REPO):
 def main(tier):
     c = vlib.Check("C01", tier)
     c.phase_proofs()
-    if tier != "quick":
-        # Props/ParseTotal.v: the per-leaf premises of the inline phase proved of the block phase (quick is at its time budget)
-        c.phase_proofs("ParseTotal")
+    # Props/ParseTotal.v: the per-leaf premises of the inline phase proved of the block phase; the inline phase is total
+    # after every Ok run of the block phase
+    c.phase_proofs("ParseTotal")
     recs_cm = cm_tie.tie_cm(c, 500 if tier == "quick" else 8000, 200 if tier == "quick" else 3000)
     if recs_cm is None:
         c.finish(rule="build failed")
@@ -102,7 +102,9 @@ def main(tier):
             c.known_hit("spx_consume_multiline_footnote_ref", {"doc": hx(md), "opts": o, "at": loc})
         else:
             c.violation("parse_document panics: " + detail[:200], {"opts": o, "md": hx(md), "line": line})
-    layerc.blocks(c, tier, 0.1 if tier == "quick" else 0.1)
+    # quick: the Print Assumptions pass over the 100+ theorems of Props/Blocks.v runs in C20 and BLOCKS_TIE (time budget);
+    # the theorems used here are compiled as dependencies of Props/ParseTotal.v
+    layerc.blocks(c, tier, 0.1 if tier == "quick" else 0.1, proofs=(tier != "quick"))
     layerc.inlines(c, tier, 0.1 if tier == "quick" else 0.1, on_impl_panic=inl_panic)
     # the whole parser as ONE function (Model/Parse.v; panic for panic: the known C01-a panic is reproduced at the same site)
     layerc.whole(c, tier, 0.1 if tier == "quick" else 0.05, proofs=False)
